@@ -203,6 +203,16 @@ func TestC08(t *testing.T) {
 				c.c08Text(s, "boundaries", cs, false)
 			}
 		})
+		c.Sub("statement-kinds-in-positions", func(s *Sub) {
+			var k int64
+			stmtPositionTexts(func(label, text string) {
+				k++
+				if c.Mine(k) {
+					c.c08Text(s, "statement-kinds-in-positions", text, true)
+				}
+			})
+			c.Ev.MarkExhaustive(fmt.Sprintf("every one of %d statement kinds in every one of %d kinds of position, each statement on lines of its own", len(stmtKinds()), len(stmtPositions())))
+		})
 		c.Sub("lines-after-multiline-tokens", func(s *Sub) {
 			if c.Shard != 0 {
 				return
